@@ -482,6 +482,39 @@ func c03One(t *testing.T, run *c03Run) {
 	}
 	alive := true
 	for _, name := range run.Schedule {
+		if i := strings.Index(name, ">>"); i > 0 {
+			// "task>>fn|kind|k": run the task until, for the k-th time, the operation it is
+			// suspended in front of is `kind` inside a function whose call chain contains fn
+			// (or until it ends / blocks).  This aligns a replay on WHERE a task stands rather
+			// than on how many steps it took, so code that adds or removes a shared operation
+			// elsewhere still reaches the window.
+			tk := s.Task(name[:i])
+			parts := strings.Split(name[i+2:], "|")
+			if tk == nil || len(parts) < 3 {
+				continue
+			}
+			want := 1
+			fmt.Sscanf(parts[2], "%d", &want)
+			seen := 0
+			for n := 0; n < 400 && alive && s.Runnable(tk); n++ {
+				if tk.Steps > 0 && strings.Contains(tk.Label, parts[0]) && tk.Kind == parts[1] {
+					seen++
+					if seen >= want {
+						break
+					}
+				}
+				if parts[0] == "done" && tk.State != rt.Ready {
+					break
+				}
+				if !doStep(tk) {
+					alive = false
+				}
+			}
+			if !alive {
+				break
+			}
+			continue
+		}
 		tk := s.Task(name)
 		if tk == nil || !s.Runnable(tk) {
 			skipped++
